@@ -3,7 +3,7 @@
    Print Assumptions.  The coefficient lists are the ones EXTRACTED from decompositions.py
    (Extracted/Facts.v, decoded in Model/Kappa.v); theta ranges over all reals. *)
 From Coq Require Import String QArith Qabs Reals.
-From CKT Require Import Common.Base Extracted.Facts Model.Kappa Proofs.KappaP.
+From CKT Require Import Common.Base Extracted.Facts Model.Kappa Proofs.KappaP Model.KappaGates Proofs.KappaGatesP Proofs.KappaQ.
 Close Scope Q_scope.
 Local Open Scope string_scope.
 Local Open Scope R_scope.
@@ -94,6 +94,66 @@ Proof.
   exact (conj (kappa_kak_doc_rot theta) (conj (kappa_kak_doc_ctrl theta) (conj (kappa_kak_doc_xxyy theta)
         (conj kappa_kak_doc_cx (conj kappa_kak_doc_cs (conj kappa_kak_doc_iswap kappa_kak_doc_swap)))))).
 Qed.
+
+(* ---- the named gates on the KAK path ARE local conjugates of the canonical interaction ------------
+   (discharges, for rzx / xx_plus_yy / xx_minus_yy, the hypothesis "these are the gate's Weyl coordinates":
+    the 4x4 matrix of the gate [Model/KappaGates.v, compared with Gate.to_matrix() by the harness] equals
+    K1 * N(a,b,c) * K2 with K1, K2 Kronecker products of 2x2 matrices and N = sum_k u_k s_k(x)s_k built from the
+    code's own u = _u_from_thetavec([a,b,c]); and kappa of the KAK path at (a,b,c) is the documented closed form.
+    Hm = sqrt2 * Hadamard (Hm*Hm = 2 I);  Dph b = diag(1, e^{ib}), inverse Dph (-b).) *)
+Theorem c15_rzx_is_kak : forall theta,
+  (forall i j, (i < 4)%nat -> (j < 4)%nat ->
+     rzx_mat theta i j =
+     mscale (/ 2) (mmul (mmul (kron sI Hm) (kak_mat (- (theta / 2)) 0 0)) (kron sI Hm)) i j) /\
+  kappaR (kak_coeffsR (- (theta / 2)) 0 0) = 1 + 2 * Rabs (sin theta).
+Proof. intros theta. split; [intros i j; apply rzx_kak|apply kappa_rzx_coords]. Qed.
+
+Theorem c15_xxpyy_is_kak : forall theta beta,
+  (forall i j, (i < 4)%nat -> (j < 4)%nat ->
+     xxpyy_mat theta beta i j =
+     mmul (mmul (kron (Dph beta) sI) (kak_mat (- (theta / 4)) (- (theta / 4)) 0)) (kron (Dph (- beta)) sI) i j) /\
+  kappaR (kak_coeffsR (- (theta / 4)) (- (theta / 4)) 0)
+    = 1 + 4 * Rabs (sin (theta / 2)) + 2 * (sin (theta / 2) * sin (theta / 2)).
+Proof. intros theta beta. split; [intros i j; apply xxpyy_kak|apply kappa_xxpyy_coords]. Qed.
+
+Theorem c15_xxmyy_is_kak : forall theta beta,
+  (forall i j, (i < 4)%nat -> (j < 4)%nat ->
+     xxmyy_mat theta beta i j =
+     mmul (mmul (kron (Dph beta) sI) (kak_mat (- (theta / 4)) (theta / 4) 0)) (kron (Dph (- beta)) sI) i j) /\
+  kappaR (kak_coeffsR (- (theta / 4)) (theta / 4) 0)
+    = 1 + 4 * Rabs (sin (theta / 2)) + 2 * (sin (theta / 2) * sin (theta / 2)).
+Proof. intros theta beta. split; [intros i j; apply xxmyy_kak|apply kappa_xxmyy_coords]. Qed.
+
+(* the local factors used above are invertible 2x2 matrices: Hm*Hm = 2 I, Dph b * Dph (-b) = I *)
+Theorem c15_local_factors : forall beta i j, (i < 2)%nat -> (j < 2)%nat ->
+  sum4 (fun k => Cmul (Hm i k) (Hm k j)) = Cscale 2 (sI i j) /\
+  Cadd (Cmul (Dph beta i 0%nat) (Dph (- beta) 0%nat j)) (Cmul (Dph beta i 1%nat) (Dph (- beta) 1%nat j)) = sI i j.
+Proof. intros beta i j Hi Hj. split; [now apply Hm_sq|now apply Dph_inv]. Qed.
+
+(* ---- gamma >= 1 over Q, without any axiom (for the cut finder's cost table, C08) ------------------ *)
+
+(* every registered basis, at every rational point (c, s) of the unit circle standing for
+   (cos theta', sin theta'), has a coefficient list whose kappa is at least 1 *)
+Theorem c15_gamma_table_ge1 : forall name c s,
+  In name registry_names -> (c * c + s * s == 1)%Q ->
+  exists l, coeffsQ name c s = Some l /\ (1 <= kappaQ l)%Q.
+Proof. exact gamma_table_ge1. Qed.
+
+Theorem c15_gamma_table_rot : forall c s, (c * c + s * s == 1)%Q ->
+  (kappaQ (map (evalQ (env_rotQ c s)) rot_exprs) == 1 + 4 * Qabs (c * s))%Q.
+Proof. exact rot_kappaQ. Qed.
+
+Theorem c15_gamma_table_consts :
+  (forall name, In name ["cx"; "cy"; "cz"; "ch"; "ecr"] ->
+     exists l, coeffsQ name 0 0 = Some l /\ (kappaQ l == 3)%Q) /\
+  (forall name, In name ["swap"; "iswap"; "dcx"] ->
+     exists l, coeffsQ name 0 0 = Some l /\ (kappaQ l == 7)%Q) /\
+  (exists l, coeffsQ "move" 0 0 = Some l /\ (kappaQ l == 4)%Q).
+Proof. exact gamma_table_consts. Qed.
+
+(* non-vacuity of the hypothesis c*c + s*s == 1 *)
+Example c15_ex_gamma : ((3#5) * (3#5) + (4#5) * (4#5) == 1)%Q.
+Proof. reflexivity. Qed.
 
 (* ---- kappa >= 1 --------------------------------------------------------------------------- *)
 
@@ -242,6 +302,13 @@ Print Assumptions c15_weyl_tt0.
 Print Assumptions c15_weyl_symmetry.
 Print Assumptions c15_local_invariance.
 Print Assumptions c15_kak_doc_angles.
+Print Assumptions c15_rzx_is_kak.
+Print Assumptions c15_xxpyy_is_kak.
+Print Assumptions c15_xxmyy_is_kak.
+Print Assumptions c15_local_factors.
+Print Assumptions c15_gamma_table_ge1.
+Print Assumptions c15_gamma_table_rot.
+Print Assumptions c15_gamma_table_consts.
 Print Assumptions c15_ge_1.
 Print Assumptions c15_basis_invariants.
 Print Assumptions c15_setter_refuses.
